@@ -272,6 +272,22 @@ func (m *Machine) uf(name string, s Sort, args []Value) *Term {
 			vals[i] = a
 		}
 	}
+	// identical argument tuple: same result (no fresh variable needed)
+	for _, prev := range m.ufs[name] {
+		if len(prev.args) != len(vals) {
+			continue
+		}
+		same := true
+		for i := range vals {
+			if !sameValue(prev.args[i], vals[i]) {
+				same = false
+				break
+			}
+		}
+		if same {
+			return prev.res
+		}
+	}
 	r := m.newInput("uf."+name, s, "uf")
 	if m.concrete == nil {
 		cons := m.tt.True
@@ -291,6 +307,38 @@ func (m *Machine) uf(name string, s Sort, args []Value) *Term {
 	}
 	m.ufs[name] = append(m.ufs[name], ufCall{args: vals, res: r})
 	return r
+}
+
+// sameValue: syntactic identity of two engine values (cheap, conservative).
+func sameValue(a, b Value) bool {
+	switch x := a.(type) {
+	case *Term:
+		y, ok := b.(*Term)
+		return ok && x == y
+	case *Ptr:
+		y, ok := b.(*Ptr)
+		return ok && ptrEq(x, y)
+	case *StrV:
+		y, ok := b.(*StrV)
+		if !ok {
+			return false
+		}
+		if x == y {
+			return true
+		}
+		if !x.Sym && !y.Sym {
+			return x.S == y.S
+		}
+		if x.Sym && y.Sym && x.Len == y.Len && len(x.B) == len(y.B) {
+			for i := range x.B {
+				if x.B[i] != y.B[i] {
+					return false
+				}
+			}
+			return true
+		}
+	}
+	return false
 }
 
 func registerStrings() {
